@@ -178,9 +178,24 @@ for _N in _NAMES:
             for t, _pol in (ch if isinstance(ch, list) else []):
                 flags |= {y.id for y in ast.walk(t) if isinstance(y, ast.Name)} & local
         names = '/'.join(sorted({x.func.attr for x in calls}))
-        ctx.add('C14.R3', 'bioResults.__init__', ok if (ok or not flags) else None, init, f'statistics are recomputed on every construction, also from a pickle file: every normal exit passes self.{names}()' if ok else
-                f'a results object can be constructed without recomputing its statistics: some path from the entry of the constructor to a normal exit passes no call of self.{names}(), '
-                f'the method that assigns {", ".join("self.data." + a for a in STATISTICS)}', 'stats', positive=not flags)
+        # what self.data holds at a normal exit that is reached without the call: an object without results has no statistics to recompute
+        # (the statistics method returns at once when self.data is None), so only an exit on which self.data holds results contradicts the property
+        skipped, precise = (set(), True) if ok else _exit_states_without(cfg, {cfg.node_of(x) for x in calls}, 'self.data')
+        noop = all(_returns_at_once_when_none(raw[x.func.attr], 'self.data') for x in calls)
+        if ok:
+            verdict, pos = True, False
+        elif 'val' in skipped:
+            verdict, pos = (False if precise and not flags else None), precise and not flags
+        elif skipped and skipped <= {'none'} and noop:
+            verdict, pos = True, False
+        else:
+            verdict, pos = None, False
+        ctx.add('C14.R3', 'bioResults.__init__', verdict, init, (f'statistics are recomputed on every construction, also from a pickle file: every normal exit passes self.{names}()' if ok else
+                f'statistics are recomputed on every construction that has results, also from a pickle file: the only exits that pass no call of self.{names}() are those on which self.data is None, '
+                f'where self.{names}() returns at once') if verdict else
+                (f'a results object can be constructed without recomputing its statistics: some path from the entry of the constructor to a normal exit on which self.data holds results passes no call of self.{names}(), '
+                 f'the method that assigns {", ".join("self.data." + a for a in STATISTICS)}' if 'val' in skipped else
+                 f'some path of the constructor passes no call of self.{names}(); what self.data holds on it ({sorted(skipped)}) is not in a form the rule understands'), 'stats', positive=pos)
     wp = BR.methods['write_pickle']
     dumps = [x for x in walk_no_nested(wp.node) if isinstance(x, ast.Call) and dotted(x.func) == 'pickle.dump']
     ok = len(dumps) == 1 and unparse(dumps[0].args[0]) == 'self.data'
@@ -233,8 +248,15 @@ for _N in _NAMES:
     if None in written or None in found or not written or not found:
         ctx.add('C14.R5', 'files_of_type:patterns', None, fo, f'name templates not in the expected form: written {sorted(map(str, written))}, searched {sorted(map(str, found))}', 'patterns')
     else:
+        # only a search whose result is handed back as it is (returned, concatenated, copied) accuses the pattern: a result that is
+        # filtered or looped over before it is used leaves the verdict open
+        direct = {shape_of(arg_of(c), {'self.modelName': 'N', ext_p: 'E'}) for c in globs if _returned_as_it_is(fo.node, c)}
         greedy = sorted(t for t in found if t.startswith('N*'))
-        if greedy:
+        if greedy and not any(t in direct for t in greedy):
+            ctx.add('C14.R5', 'files_of_type:patterns', None, fo, f'files are searched with the pattern {greedy[0]} (N = model name, E = extension) and the result is processed before it is returned: '
+                    f'which files are found is not in a form the rule understands (the names written are {sorted(written)})', str(sorted(found)))
+        elif greedy:
+            greedy = [t for t in greedy if t in direct]
             ctx.add('C14.R5', 'files_of_type:patterns', False, fo, f'files are searched with the pattern {greedy[0]} (N = model name, E = extension): it also matches the files of every other model whose name begins with this '
                     f'model\'s name; recycle then loads the results of another model. The files of a model are {sorted(written)}', str(sorted(found)), positive=True)
         else:
@@ -423,6 +445,115 @@ def _statistics_methods(methods: dict) -> set[str]:
                     total[k] |= total[c]
                     changed = True
     return {k for k, v in total.items() if set(STATISTICS) <= v}
+
+
+def _returns_at_once_when_none(method: ast.FunctionDef, attr: str) -> bool:
+    """the method does nothing when ``attr`` is None: its first statement (the docstring apart) is `if attr is None: return`,
+    or its whole body is `if attr is not None: ...`"""
+    from .c13 import _none_test
+
+    body = [st for st in method.body if not (isinstance(st, ast.Expr) and isinstance(st.value, ast.Constant) and isinstance(st.value.value, str))]
+    if not body or not isinstance(body[0], ast.If):
+        return False
+    first, nt = body[0], _none_test(body[0].test, attr)
+    if nt is True:
+        return len(first.body) == 1 and isinstance(first.body[0], ast.Return) and (first.body[0].value is None or (isinstance(first.body[0].value, ast.Constant) and first.body[0].value.value is None))
+    if nt is False:
+        return len(body) == 1 and not first.orelse
+    return False
+
+
+def _exit_states_without(cfg, avoid: set, attr: str) -> tuple[set, bool]:
+    """What ``attr`` may hold at the normal exit along the paths that pass none of the nodes ``avoid``:
+    'unset' never assigned, 'none' the constant None, 'val' anything else that was assigned, 'any' unknown (a call that may assign it).
+    Tests `attr is None` / `attr is not None` cut the paths on which they cannot hold.  The second result is False when a test that reads
+    ``attr`` could not be used for that (the set may then contain values of infeasible paths)."""
+    from ..cfg import ENTRY, EXIT
+    from .c13 import _none_test
+
+    g = cfg.g
+    holder = attr.rsplit('.', 1)[0]
+    precise = True
+    true_entry: dict[int, tuple[int, bool]] = {}
+    for n in cfg.nodes():
+        st = cfg.stmt[n]
+        k = cfg._kind.get(n)
+        test = st.test if k in ('if', 'while') else None
+        if test is None or not any(dotted(x) == attr for x in ast.walk(test) if isinstance(x, ast.Attribute)):
+            continue
+        nt = _none_test(test, attr)
+        first = cfg.node_of(st.body[0]) if k == 'if' and nt is not None else None
+        if first is None or first == n:
+            precise = False
+            continue
+        true_entry[n] = (first, nt)
+
+    def transfer(n: int, inn: frozenset) -> frozenset:
+        st = cfg.stmt[n]
+        if isinstance(st, str):
+            return inn
+        ds = [d for d in cfg.defs()[n] if d.name == attr]
+        if ds:
+            return frozenset('none' if d.kind == 'assign' and isinstance(d.value, ast.Constant) and d.value.value is None else 'val' for d in ds)
+        if any(d.name == holder for d in cfg.defs()[n]):
+            return frozenset({'any'})
+        own = [st.test] if cfg._kind.get(n) in ('if', 'while') else [st.iter] if cfg._kind.get(n) == 'for' else [i.context_expr for i in st.items] if cfg._kind.get(n) == 'with' else [] if cfg._kind.get(n) in ('def', 'except') else [st]
+        for c in (x for p in own for x in ast.walk(p) if isinstance(x, ast.Call)):
+            if (isinstance(c.func, ast.Attribute) and dotted(c.func.value) in (holder, attr)) or any(dotted(a) in (holder, attr) for a in list(c.args) + [kw.value for kw in c.keywords]) \
+                    or call_name(c) in ('setattr', 'delattr'):
+                return frozenset({'any'})
+        return inn
+
+    IN: dict[int, frozenset] = {n: frozenset() for n in g.nodes}
+    IN[ENTRY] = frozenset({'unset'})
+    work = [ENTRY]
+    while work:
+        n = work.pop()
+        if n in avoid:
+            continue
+        out = transfer(n, IN[n])
+        for s in g.successors(n):
+            flow = out
+            if cfg._kind.get(s) == 'except':
+                flow = out | IN[n]  # the statement may raise before it stores
+            elif n in true_entry:
+                first, nt = true_entry[n]
+                is_none = (s == first) == nt  # this edge is taken when attr is None
+                flow = frozenset(('none' if v == 'any' and is_none else v) for v in out if v == 'any' or (v == 'none') == is_none)
+            new = IN[s] | flow
+            if new != IN[s]:
+                IN[s] = new
+                work.append(s)
+    return set(IN[EXIT]), precise
+
+
+def _returned_as_it_is(func_node, call: ast.Call) -> bool:
+    """the result of ``call`` is (part of) what the function returns, reached through copies, `+`, list()/sorted()/..., unpacking into a list
+    and extend / += on a returned name only - nothing selects among its elements"""
+    seen: set[int] = set()
+    todo = [r.value for r in walk_no_nested(func_node) if isinstance(r, ast.Return) and r.value is not None]
+    while todo:
+        e = todo.pop()
+        if id(e) in seen:
+            continue
+        seen.add(id(e))
+        if e is call:
+            return True
+        if isinstance(e, ast.Name):
+            for st in walk_no_nested(func_node):
+                if isinstance(st, (ast.Assign, ast.AnnAssign)) and st.value is not None and any(isinstance(t, ast.Name) and t.id == e.id for t in (st.targets if isinstance(st, ast.Assign) else [st.target])):
+                    todo.append(st.value)
+                elif isinstance(st, ast.AugAssign) and isinstance(st.op, ast.Add) and isinstance(st.target, ast.Name) and st.target.id == e.id:
+                    todo.append(st.value)
+                elif isinstance(st, ast.Call) and isinstance(st.func, ast.Attribute) and st.func.attr == 'extend' and isinstance(st.func.value, ast.Name) and st.func.value.id == e.id and st.args:
+                    todo.append(st.args[0])
+        elif isinstance(e, ast.BinOp) and isinstance(e.op, ast.Add):
+            todo += [e.left, e.right]
+        elif isinstance(e, ast.Call) and call_name(e) in ('list', 'sorted', 'tuple') and e.args and not e.keywords:
+            todo.append(e.args[0])
+        elif isinstance(e, (ast.List, ast.Tuple)):
+            todo += [x.value for x in e.elts if isinstance(x, ast.Starred)]
+    return False
 
 
 def _holds_for_a_value(test: ast.expr, ev: str) -> str | None:
